@@ -111,7 +111,13 @@ func ParseTime(v string) (Time, error) {
 	if err != nil {
 		return Time{}, err
 	}
+	t = t.Round(DatePrecision)
+	// the date is stored and hashed in RFC 3339 form, which only holds years 0000-9999:
+	// rounding (or a zone offset) must not take it out of what can be read back
+	if y := t.Year(); y < 0 || y > 9999 {
+		return Time{}, errors.New("date out of range")
+	}
 	return Time{
-		Time: t.Round(DatePrecision),
+		Time: t,
 	}, nil
 }
